@@ -20,6 +20,8 @@ def run(ctx):
     E.r_epoch_writes(prog, rep)
     E.r_scan_guards(prog, rep)
     E.r_state_order(prog, rep)
+    E.r_parallel_vectors(prog, rep)
+    E.r_scan_waits(prog, rep)
 
 
 from rules.engine_variants import C02 as VARIANTS  # noqa: E402
